@@ -472,6 +472,32 @@ def check_document(doc, models, wanted, app, analyses, files):
         if targets and targets != ["#/components/schemas/" + mname]:
             v.append({"clause": "E7", "detail": "%s %s was generated for model %s but describes %s" % (
                 meth.upper(), opath, mname, targets), "sig": {"what": "wrong_ref_target"}})
+    # the prose of an operation (summary, descriptions of the operation and of its parameters) names, in back-ticks,
+    # the model it was generated for: it must not name ANOTHER model of the document instead
+    import re as _re
+    all_names = set(m["name"] for m in models)
+    for (meth, opath), (mname, op, _) in sorted(expected.items()):
+        if (meth, opath) not in present:
+            continue
+        texts = []
+
+        def _collect(node):
+            if isinstance(node, dict):
+                for k_, val in node.items():
+                    if k_ in ("summary", "description") and isinstance(val, str):
+                        texts.append(val)
+                    else:
+                        _collect(val)
+            elif isinstance(node, list):
+                for val in node:
+                    _collect(val)
+        _collect(paths[opath][meth])
+        _collect(paths[opath].get("parameters", []))
+        named = set(_re.findall(r"`(\w+)`", " ".join(texts)))
+        other = sorted(named & (all_names - {mname}))
+        if other and mname not in named:
+            v.append({"clause": "E7", "detail": "%s %s was generated for model %s but its summary/descriptions name %s: %r" % (
+                meth.upper(), opath, mname, other, texts[:3]), "sig": {"what": "prose_names_other_model"}})
     return v
 
 
